@@ -635,3 +635,59 @@ def refreshed_before(f, sinks, refresh_calls, loop_iter_pat=None):
             return True
     return False
 
+
+
+def refresh_account_consistency(ctx, rid):
+    """update_wallet_state collects the outstanding entries of the account that is active when it starts and
+    releases the wallet lock between its steps: the steps that write (the kernel step's save, the expiry step's
+    cancel) must name the account the entries belong to - the entry's own parent_key_id, or the same read of the
+    active account that collected them - not a second read of w.parent_key_id() (log ids are per account)."""
+    run = ctx.run
+    OWN = c.LW + "api_impl::owner::"
+    PK = c.WB + "parent_key_id"
+    TLE = c.LW + "types::TxLogEntry"
+
+    def _reads(f, o):
+        org = vf.origins(f, o)
+        return {x[2] for x in org if x[0] in ("call", "mutcall") and cfg.match_name(x[1], PK)}, vf.has_field(org, TLE, "parent_key_id")
+
+    uws = ctx.fn(OWN + "update_wallet_state")
+    utk = ctx.fn(OWN + "update_txs_via_kernel")
+    if uws is None or utk is None:
+        run.error("%s: update_wallet_state / update_txs_via_kernel not found" % rid)
+        return
+    collect = set()
+    for b, t in cfg.find_calls(uws, c.LW + "internal::updater::retrieve_txs"):
+        collect |= _reads(uws, t["a"][4])[0]
+    n = 0
+    for f, pat, ai, what in ((uws, c.LW + "internal::tx::cancel_tx", 2, "the expiry step cancels"), (utk, c.WOB + "save_tx_log_entry", 2, "the kernel step saves"), (uws, c.WOB + "save_tx_log_entry", 2, "the refresh saves")):
+        for b, t in cfg.find_calls(f, pat):
+            n += 1
+            reads, from_entry = _reads(f, t["a"][ai])
+            allowed = collect if f is uws else set()
+            held = reads <= allowed
+            run.instance(rid, {"fn": pp.short(f.id), "obligation": "%s under the account the entry was collected from" % what, "site": c.site_of(f, b), "account from the entry": from_entry, "fresh reads of the active account": len(reads - allowed)}, held=held)
+            if not held:
+                run.finding(Finding(rid, f.id, "%s an entry under a fresh read of the active account, not under the account the entry was collected from: if the active account is switched while a refresh is running (updater thread, second client), the entry with the same id in the other account is hit (log ids are per account)" % what, site=c.site_of(f, b)))
+    if n < 2:
+        run.error("%s: expected the cancel of the expiry step and the save of the kernel step, found %d sites" % (rid, n))
+
+
+def stored_record_required_fields(ctx, adt):
+    """Fields a stored (JSON) record of type `adt` must carry to decode, read off the derived Deserialize visitor:
+    `de::Error::missing_field(name)` (a `with` field without `default`) or the private missing_field helper for a
+    type that is not an Option. None if the visitor is not found."""
+    db = ctx.db
+    ks = [k for k in db.fns if ("for %s>" % adt) in k and k.endswith("::visit_map") and "serde::de::Deserialize" in k]
+    if len(ks) != 1:
+        return None
+    f = db.fns[ks[0]]
+    req = set()
+    for b, t in f.calls():
+        n = t.get("f") or ""
+        if not n.endswith("missing_field") or not t["a"] or "k" not in t["a"][0]:
+            continue
+        name = (t["a"][0]["k"].get("t") or "").strip('"')
+        if n == "serde::de::Error::missing_field" or not (t.get("dty") or "").startswith("core::result::Result<core::option::Option<"):
+            req.add(name)
+    return req
